@@ -23,7 +23,7 @@ ASSUMPTIONS = [
     "known finding nsmap-member-order-only: a reloaded child whose map equals its parent's adopts the parent's key order; accepted only "
     "when both texts parse to equal objects and every difference is the member order of an 'nsmap' object",
 ]
-REQUIRED = ["aliasing_checks", "trees_with_clark_extras_key", "roundtrips", "legacy_roundtrips", "upgrades", "trees_with_tail", "trees_with_extras", "trees_with_prefix", "trees_with_nested_nsmap",
+REQUIRED = ["saved_again_after_in_place_edits", "aliasing_checks", "trees_with_clark_extras_key", "roundtrips", "legacy_roundtrips", "upgrades", "trees_with_tail", "trees_with_extras", "trees_with_prefix", "trees_with_nested_nsmap",
             "text_identical"]
 EXHAUSTIVE = {"quick": False, "thorough": False}
 
@@ -101,11 +101,13 @@ def order_only_nsmap(text_a, text_b):
     return walk(pa, pb, False) and found[0]
 
 
-def judge(ctx, t, origin):
+def judge(ctx, t, origin, history=None):
     plain = None
 
     def wit():
         nonlocal plain
+        if history is not None:
+            return dict(history, origin=origin)
         if plain is None:
             plain = {"tree": snapshot.to_plain(t), "origin": origin}
         return plain
@@ -243,6 +245,13 @@ def run(ctx, params):
         if same and size > 2:
             ctx.count("trees_with_repeated_id_on_a_path")
         judge(ctx, t, "api-built")
+        if i % 5 == 0:
+            # the same objects (same ids) saved again after an editor changed them in place
+            hist = {"before": snapshot.to_plain(t)}
+            hist["edits"] = treegen.edit_in_place(rng, t)
+            if hist["edits"]:
+                ctx.count("saved_again_after_in_place_edits")
+                judge(ctx, t, "api-built, edited in place and saved again", hist)
         if i % 17 == 0:
             plain = snapshot.to_plain(t)
             ctx.later(lambda c, p=plain: judge(c, snapshot.from_plain(Node, p, fresh_ids=False), "api-built (judged again at the end)"))
@@ -264,6 +273,14 @@ def run(ctx, params):
 
 
 def replay(ctx, witness):
+    if "before" in witness:
+        t = snapshot.from_plain(Node, witness["before"], fresh_ids=False)
+        judge(ctx, t, "replay")
+        treegen.apply_edits(t, witness["edits"])
+        judge(ctx, t, "replay, edited in place and saved again")
+        ctx.distinct(1)
+        ctx.distinct(2)
+        return
     t = snapshot.from_plain(Node, witness["tree"], fresh_ids=False)
     judge(ctx, t, witness.get("origin", "replay"))
     ctx.distinct(1)
